@@ -169,21 +169,31 @@ def scalar_patch(ctx, k, kind):
     monitor = "patch-test-reaction-diffusion" if reaction else "patch-test-poisson"
     if Dfac.size:
         Dd = basis.get_dofs(Dfac)
-        # two ways of prescribing the boundary values
-        use_proj = (k % 3 == 0) and d > 1 and kind != "wedge"
-        if use_proj:
+        # the stated pipeline: the DOFs returned by the library are constrained to the *boundary L2 projection* of the
+        # data (a stray DOF in the returned set has no support on the Dirichlet facets and makes this projection fail or
+        # wrong, whereas prescribing exact nodal values at whatever is returned would mask it)
+        can_project = d > 1 and kind != "wedge"
+        if can_project:
             fbD = skfem.FacetBasis(mesh, rec.make(), facets=Dfac, intorder=min(order, {"tet": 19, "tri": 12}.get(kind, order)))
-            xD = fbD.project(lambda x: u_fn(x))
+            with np.errstate(all="ignore"):
+                xD = fbD.project(lambda x: u_fn(x))
             ctx.reached("boundary-projection-used")
         elif rec.nodal:
             xD = np.zeros(basis.N)
             xD[Dd.flatten()] = u_fn(basis.doflocs[:, Dd.flatten()])
-            ctx.reached("nodal-values-used")
         else:
             xD = basis.project(lambda x: u_fn(x))   # the exact coefficient vector restricted by condense to D
         xh = skfem.solve(*skfem.condense(A, b, x=xD, D=Dd))
         ctx.close("dirichlet-values-reproduced", xh[Dd.flatten()], xD[Dd.flatten()], rtol=0, scale=1.0, atol=0.0,
                   mech="expanded-solution-differs-from-prescribed-values", **tag)
+        if rec.nodal and can_project:
+            # second spelling of the same data: nodal values; both must give the same boundary vector
+            xN = np.zeros(basis.N)
+            xN[Dd.flatten()] = u_fn(basis.doflocs[:, Dd.flatten()])
+            ctx.close("dirichlet-values-reproduced", xD[Dd.flatten()], xN[Dd.flatten()], rtol=1e-8,
+                      scale=float(np.abs(xN).max()) + 1e-300, mech=f"boundary-projection-differs-from-nodal-values:{name.split('(')[0]}",
+                      **tag)
+            ctx.reached("nodal-values-used")
     else:
         xh = skfem.solve(A, b)
     # conditioning guard (DESIGN C06): drop and count, never report
